@@ -15,6 +15,9 @@ def run(ctx):
     RL.reductions_never_shrink(ctx, "R15.g")
     RK.word_shape_rules(ctx, "R15.h")
     RK.class_predicates(ctx, "R15.i")
+    RK.text_methods_use_chars(ctx, "R15.j")
+    RK.punctuation_table(ctx, "R15.k")
+    RK.lower_rules(ctx, "R15.l")
     return info("R15.a: stage order on both builder chains (normalize first; fin before split; split before strip/pos/stem; "
                 "strip before pos/stem; lower before pos/stem); R15.b/c: query and record tokenisers run the same stages with "
                 "equal split/strip class sets {Whitespace,Control,Punctuation}/{NotAlphaNum}, fin(false) only for queries; "
